@@ -416,6 +416,24 @@ def gen_literal_boundary(rng):
     return samples
 
 
+def gen_hidden_union_merge(rng):
+    """two similar models whose shared field is a required container in one and, in the other (a list of objects), a union
+    of several kinds that is also missing once: after the merge the field is a union with an Optional[Union[...]] member,
+    whose own members (ints next to the other side's floats, lists next to lists) must still be combined"""
+    atoms_a = rng.choice([[1.5], [1.5, 2.5], ["x"], [1], [None, 2.5]])
+    atoms_b = rng.choice([[1, "a", None], [1, 2], [1, None], ["b", 1], [True, 1]])
+    other = rng.choice([True, "s", 7, {"k": 1}])
+    depth = rng.choice([0, 0, 1])
+    fa, fb = atoms_a, atoms_b
+    for _ in range(depth):
+        fa, fb = [fa], [fb]
+    rest = {"g": 1, "h": "t"} if rng.random() < 0.5 else {"g": 1}
+    out = {"p": dict(rest, f=fa), "q": [dict(rest, f=fb), dict(rest, f=other), dict(rest)]}
+    if rng.random() < 0.3:
+        out = {"q": out["q"], "p": out["p"]}
+    return out
+
+
 def gen_shared_samples(rng):
     return [gen_shared_shape(rng) for _ in range(rng.randint(1, 2))]
 
